@@ -188,6 +188,28 @@ pub struct Prog {
 }
 
 impl Prog {
+    /// declared names must be pairwise distinct (a generator that violates this would make the
+    /// checks blame the compiler for rejecting the program)
+    pub fn self_check(&self) -> Result<(), String> {
+        let mut seen = std::collections::HashSet::new();
+        for t in &self.templates {
+            if !seen.insert(format!("type {}", t.name)) {
+                return Err(format!("type {} declared twice", t.name));
+            }
+            for x in &t.xtors {
+                let k = if t.is_data { "ctor" } else { "dtor" };
+                if !seen.insert(format!("{k} {}", x.name)) {
+                    return Err(format!("{k} {} declared twice", x.name));
+                }
+            }
+        }
+        for d in &self.defs {
+            if !seen.insert(format!("def {}", d.name)) {
+                return Err(format!("definition {} declared twice", d.name));
+            }
+        }
+        Ok(())
+    }
     pub fn is_codata(&self, ty: Ty) -> bool {
         match ty {
             Ty::I64 => false,
